@@ -183,6 +183,9 @@ def run(ctx: common.Ctx):
     run_objects(ctx, drv)
     run_custom_processors(ctx, drv)
     run_cli_z(ctx, drv)
+    run_chunk_types(ctx, drv)
+    run_generate_type(ctx, drv)
+    run_language_sequences(ctx)
     for p, c in cases[ncorpus + 5000: ncorpus + 5003]:
         ctx.sample({"pps": p, "chunks": c, "output": impl_run(p, c)})
 
@@ -880,6 +883,184 @@ def run_cli_z(ctx, drv):
     ctx.sample({"stream": "cli-integer-limits", "request": reqs[-1], "assembled": model[-1]})
 
 
+# =====================================================================================================================
+# wave 7: chunk object types, the real _generate_type end to end, several languages in one process
+# =====================================================================================================================
+
+def run_chunk_types(ctx, drv):
+    """The template engine hands over `str` subclasses (markupsafe.Markup under autoescape — the HTML target): the file must be
+    the plain concatenation / the line-wise processed text whatever the chunks' type (no re-escaping, no type-specific `+`)."""
+    from nunavut.jinja.markupsafe import Markup
+
+    class MyStr(str):
+        pass
+
+    class Shouting(str):                      # a subclass with its own `+`, as Markup has
+        def __add__(self, other):
+            return Shouting(str.__add__(self, str(other).upper()))
+
+        def __radd__(self, other):
+            return Shouting(str.__add__(str(other).upper(), self))
+
+    rng = ctx.rng
+    texts = ["&lt;a&gt; \n", "x &amp; y\r\n<b>\n", "a<\n\n\n&\n", "&lt;", "<p>  \n", "q\n&quot;\r\n", "a&b \n \n \n<c>", "\n", ""]
+    for _ in range(40 if ctx.quick else 600):
+        texts.append("".join(rng.choices(["&", "<", ">", "&lt;", "a", " ", "\n", "\r\n", '"', "'"], k=rng.randint(2, 16))))
+    wrappers = [("Markup", Markup), ("MyStr", MyStr), ("Shouting", Shouting)]
+    cases = []
+    for t in texts:
+        L = len(t)
+        for pps in ([], ["T"], ["L1"], ["T", "L1"]):
+            cuts = sorted(rng.choices(range(0, L + 1), k=rng.randint(0, 3))) if L else []
+            chunks = [t[a:b] for a, b in zip([0] + cuts, cuts + [L])] or [""]
+            cases.append((pps, chunks))
+    model = drv.ask([line(p, c) for p, c in cases]) if drv is not None else [None] * len(cases)
+    for (pps, chunks), m in zip(cases, model):
+        plain = impl_run(pps, chunks)
+        ref = reference(pps, "".join(chunks))
+        for wname, w in wrappers:
+            mixed = [w(c) if (i % 2 == 0 or wname != "Markup") else c for i, c in enumerate(chunks)]
+            for variant in ([w(c) for c in chunks], mixed):
+                got = impl_run(pps, variant)
+                ctx.case(("chunk-type", wname, tuple(pps), tuple(chunks), variant is mixed), True)
+                ctx.count("chunks_of_str_subclass:" + wname)
+                if m is not None:
+                    ctx.traces += 1
+                    if dec(m) != str(got):
+                        ctx.disagree("linebuf-chunk-type", {"pps": pps, "chunks": chunks, "chunk_type": wname}, dec(m), str(got))
+                if str(got) != ref or str(got) != plain:
+                    ctx.fail({"kind": "chunk-type-dependence"},
+                             "the written file depends on the type of the chunk objects (str subclass such as markupsafe.Markup): it is not the plain text processed line by line",
+                             {"pps": pps, "chunks": chunks, "chunk_type": wname, "output": str(got), "plain_str_output": plain, "expected": ref})
+                    break
+    ctx.sample({"stream": "chunk-types", "pps": cases[1][0], "chunks": cases[1][1], "types": [w for w, _ in wrappers]})
+
+
+_E2E_TEMPLATES = ["a", "a\n", "a \n\n\n\nb\t", "// {{ T.short_name }}  \r\n\r\n\r\nend", "{% if true -%}\nx \n{%- endif %}", "line \n{% for i in range(3) %}\n{% endfor %}tail",
+                  "{{ T.full_name }}\n", "\n\n\n", "x\r", "{% if true %}y{% endif -%}\n"]
+
+
+def run_generate_type(ctx, drv):
+    """End to end through the real DSDLCodeGenerator.generate_all / _generate_type with USER templates (also ones whose output has
+    no final newline): the file is the template's text (no processor) resp. that text processed line by line — nothing is added."""
+    import pydsdl
+    import nunavut
+    import nunavut.jinja
+    from nunavut.lang import LanguageContextBuilder
+    scratch = ctx.scratch / "gentype"
+    (scratch / "dsdl" / "demo").mkdir(parents=True, exist_ok=True)
+    (scratch / "dsdl" / "demo" / "Thing.1.0.dsdl").write_text("uint8 value\n@sealed\n")
+    types = pydsdl.read_namespace(str(scratch / "dsdl" / "demo"), [])
+    cases = [(k, src, pps) for k, src in enumerate(_E2E_TEMPLATES) for pps in ([], ["T"], ["L1"], ["T", "L1"])]
+    done = []
+    for k, src, pps in cases:
+        tdir = scratch / f"tpl{k}"
+        tdir.mkdir(exist_ok=True)
+        _write(tdir / "StructureType.j2", src)
+        out = scratch / f"out{k}_{'_'.join(pps) or 'none'}"
+        lctx = LanguageContextBuilder(include_experimental_languages=True).set_target_language("cpp").create()   # cpp: no configured processors
+        ns = nunavut.build_namespace_tree(types, str(scratch / "dsdl" / "demo"), str(out), lctx)
+        gen = nunavut.jinja.DSDLCodeGenerator(ns, templates_dir=tdir, post_processors=[_mk(p) for p in pps])
+        chunks = [str(c) for c in gen._env.get_template("StructureType.j2").generate(T=types[0])]
+        gen.generate_all(False, True)
+        files = [f for f in out.rglob("Thing_1_0.*") if f.is_file()]
+        got = _read(files[0]) if len(files) == 1 else None
+        done.append((src, pps, chunks, got))
+    model = drv.ask([line(p, c or [""]) for _, p, c, _ in done]) if drv is not None else [None] * len(done)
+    for (src, pps, chunks, got), m in zip(done, model):
+        text = "".join(chunks)
+        ref = reference(pps, text)
+        ctx.case(("generate-type", src, tuple(pps)), True)
+        ctx.count("real_generate_type_runs")
+        if m is not None:
+            ctx.traces += 1
+            if got is None or dec(m) != got:
+                ctx.disagree("linebuf-generate-type", {"template": src, "pps": pps, "chunks": chunks}, dec(m), got)
+        if got != ref:
+            ctx.fail({"kind": "identity" if not pps else "not-linewise", "via": "generate_all"},
+                     "DSDLCodeGenerator.generate_all: the generated file is not the template's output (processed line by line by the run's processors)",
+                     {"template": src, "pps": pps, "chunks": chunks, "output": got, "expected": ref, "via": "DSDLCodeGenerator.generate_all(cpp, user template)"})
+    ctx.sample({"stream": "generate-type", "template": done[2][0], "pps": done[2][1], "output": done[2][3]})
+
+
+def run_language_sequences(ctx, drv=None):
+    """Several generate_types() calls for different languages in ONE process: the processors each run uses are the ones ITS
+    language configuration asks for (what `assemble` gives for that run alone) — nothing carried over from an earlier run;
+    the files of the last run equal those of the same run in a fresh process."""
+    import subprocess
+    import nunavut
+    import nunavut._generators as gens
+    import nunavut._postprocessors as npp
+    from nunavut.lang import LanguageContextBuilder
+    scratch = ctx.scratch / "langseq"
+    (scratch / "dsdl" / "demo").mkdir(parents=True, exist_ok=True)
+    (scratch / "dsdl" / "demo" / "Thing.1.0.dsdl").write_text("uint8 value\n@sealed\n")
+    root = scratch / "dsdl" / "demo"
+
+    def show(objs):
+        if objs is None:
+            return "N"
+        return ",".join("T" if isinstance(o, npp.TrimTrailingWhitespace) else f"L{o._max_empty_lines}" if isinstance(o, npp.LimitEmptyLines) else "O9" for o in objs) or "-"
+
+    def expected(name):
+        lang = LanguageContextBuilder(include_experimental_languages=True).set_target_language(name).create().get_target_language()
+        try:
+            lim = int(lang.get_config_value("limit_empty_lines"))
+        except KeyError:
+            lim = None
+        tr = bool(lang.get_config_value_as_bool("trim_trailing_whitespace"))
+        items = ([f"L{lim}"] if lim is not None else []) + (["T"] if tr else [])
+        return ",".join(items) if items else "N"
+
+    def tree(d):
+        return {str(f.relative_to(d)): f.read_bytes() for f in sorted(d.rglob("*")) if f.is_file()}
+
+    seen = []
+    original = gens.create_default_generators
+
+    def spy(namespace, *a, **kw):
+        g, sg = original(namespace, *a, **kw)
+        seen.append((show(g._post_processors), show(sg._post_processors)))
+        return g, sg
+
+    # the reference for the files: the last language of each sequence generated alone by a fresh interpreter
+    fresh = {}
+    def fresh_tree(name):
+        if name not in fresh:
+            out = scratch / f"fresh_{name}"
+            code = f"import nunavut, pathlib; nunavut.generate_types({name!r}, pathlib.Path({str(root)!r}), pathlib.Path({str(out)!r}), omit_serialization_support=True, include_experimental_languages=True)"
+            p = subprocess.run([common.PY, "-c", code], env=dict(__import__("os").environ, PYTHONPATH=str(common.REPO / "src")), capture_output=True, text=True, timeout=300)
+            fresh[name] = tree(out) if p.returncode == 0 else None
+        return fresh[name]
+
+    sequences = [["c", "cpp"], ["py", "cpp", "c"], ["cpp", "c", "cpp"]] if ctx.quick else [["c", "cpp"], ["py", "cpp", "c"], ["cpp", "c", "cpp"], ["c", "py", "cpp", "html"], ["cpp", "cpp"]]
+    gens.create_default_generators = spy
+    try:
+        for si, seq in enumerate(sequences):
+            for k, name in enumerate(seq):
+                out = scratch / f"seq{si}_{k}_{name}"
+                del seen[:]
+                nunavut.generate_types(name, root, out, omit_serialization_support=True, include_experimental_languages=True)
+                ctx.case(("language-sequence", si, k, name), True)
+                ctx.count("generate_types_runs_in_one_process")
+                want = expected(name)
+                got = seen[-1] if seen else ("?", "?")
+                if got != (want, want):
+                    ctx.fail({"kind": "processors-carried-between-runs"},
+                             "generate_types: the post-processors of a run are not the ones its own language configuration asks for (carried over from an earlier run in the same process)",
+                             {"sequence": seq, "run_index": k, "language": name, "processors_of_code_and_support_generator": list(got), "expected": want})
+                    break
+                if k == len(seq) - 1:
+                    ref = fresh_tree(name)
+                    if ref is not None and tree(out) != ref:
+                        bad = sorted(f for f in set(ref) | set(tree(out)) if ref.get(f) != tree(out).get(f))
+                        ctx.fail({"kind": "processors-carried-between-runs"},
+                                 "generate_types: the files of a run differ from those of the same run in a fresh process",
+                                 {"sequence": seq, "run_index": k, "language": name, "differing_files": bad[:5]})
+    finally:
+        gens.create_default_generators = original
+
+
 def replay(ctx, path):
     r = json.loads(open(path).read())
     rp = r.get("replay", {})
@@ -890,6 +1071,9 @@ def replay(ctx, path):
         print(json.dumps({"results": results, "run_index": k, "expected": exp}))
         ctx.cleanup()
         return 0 if results[k] == exp else 1
+    if "pps" in rp and "chunks" in rp and ("via" in rp or "chunk_type" in rp):
+        print(json.dumps({"note": "re-run ./check C15: the stream that produced this record re-executes the real generator", "record": rp})[:2000])
+        return 1
     if "pps" in rp and "chunks" in rp:
         got = impl_run(rp["pps"], rp["chunks"])
         one = impl_run(rp["pps"], ["".join(rp["chunks"])])
